@@ -2,6 +2,7 @@ import PromModel.Promql.Selectors
 import PromModel.Suites.SelSuite
 import PromProofs.SelectorsMemo
 import PromProofs.SelectorsSub
+import PromProofs.SelectorsWin
 /-
   C28 — Selectors implement lookback, staleness and range windows.
 
@@ -72,6 +73,141 @@ theorem memoized_steps_eq_instant (series : Series) (lb : Int) (refs : List Int)
 theorem memoized_small_delta_witness :
     evalSteps 5 (Memo.init [⟨10, false, false, 1⟩, ⟨20, false, false, 2⟩] 1) [13]
       ≠ [instantSpec [⟨10, false, false, 1⟩, ⟨20, false, false, 2⟩] 13 5] := by decide
+
+/-! ### range selectors -/
+
+/-- A range selector `[range]` evaluated at `t` (shifted by `offset`, fixed by `@`) yields exactly the
+    non-stale samples with `t' - range < T ≤ t'` (left-open, right-closed), floats and histograms apart;
+    `winSpec` is literally that filter. -/
+theorem range_spec (series : Series) (t range off : Int) (atT : Option Int)
+    (hs : Sorted series) (hr : 0 < range) :
+    rangeSel series t range off atT
+      = winSpec series (refTime t off atT - range) (refTime t off atT) := by
+  unfold rangeSel
+  simp only
+  rw [← winSpec_empty series (refTime t off atT - range)]
+  exact (mis_step hs (by simp [BufIter.init] <;> omega) (BInv_init series range _) (Int.le_refl _)
+    (by omega) (by omega) (by simp [BufIter.init] <;> omega)).1
+
+/-- membership form of `range_spec` -/
+theorem range_spec_mem (series : Series) (t range off : Int) (atT : Option Int) (s : Sample)
+    (hs : Sorted series) (hr : 0 < range) :
+    (s ∈ (rangeSel series t range off atT).floats ∨ s ∈ (rangeSel series t range off atT).hists) ↔
+      s ∈ series ∧ s.stale = false ∧ refTime t off atT - range < s.t ∧ s.t ≤ refTime t off atT := by
+  rw [range_spec series t range off atT hs hr]
+  simp only [winSpec, List.mem_filter]
+  cases s.hist <;> simp <;> grind
+
+example : rangeSel [⟨10, false, false, 1⟩, ⟨20, false, true, 2⟩, ⟨30, true, false, 3⟩, ⟨40, false, false, 4⟩] 40 30 0 none
+    = ⟨[⟨40, false, false, 4⟩], [⟨30, true, false, 3⟩]⟩ := by decide
+
+/-- The incremental strategy of range queries: for any sequence of windows whose ends advance (`maxt`
+    strictly — the sought sample is appended without a duplicate check), evaluated on ONE buffered iterator
+    with the previous window passed back in and `ReduceDelta(red)` after non-empty steps, every window equals
+    the from-scratch window, provided the ring reaches back far enough: `maxt₀ - D ≤ mint₀` for the first
+    window and `maxt' - red ≤ max(mint', maxt)` afterwards (`chainOK`). Floats and histograms (mixed series,
+    `mintFloats`/`mintHistograms` split) are covered by the same statement. -/
+theorem matrix_window_inv (series : Series) (D red mint0 maxt0 : Int) (ws : List (Int × Int))
+    (hs : Sorted series) (hred : 0 ≤ red) (hD : red ≤ D) (h0 : mint0 < maxt0) (hD0 : maxt0 - D ≤ mint0)
+    (hch : chainOK red mint0 maxt0 ws) :
+    runWindows red (BufIter.init series D) Win.empty ((mint0, maxt0) :: ws)
+      = ((mint0, maxt0) :: ws).map (fun w => winSpec series w.1 w.2) := by
+  obtain ⟨m1, m2, m3⟩ := mis_step (mint_p := mint0) (r := mint0) (mint := mint0) (maxt := maxt0) hs
+    (show 0 ≤ (BufIter.init series D).delta by simp [BufIter.init]; omega) (BInv_init series D mint0)
+    (Int.le_refl _) h0 h0 (by simp [BufIter.init]; omega)
+  rw [winSpec_empty] at m1 m2 m3
+  simp only [runWindows, List.map_cons]
+  rw [m1]
+  congr 1
+  split
+  · exact runWindows_spec hs red hred ws _ mint0 maxt0 m2 (by rw [m3]; simpa [BufIter.init] using hD) hch
+  · refine runWindows_spec hs red hred ws _ mint0 maxt0 (reduceDelta_inv red m2) ?_ hch
+    unfold BufIter.reduceDelta
+    split
+    · rw [m3]; simpa [BufIter.init] using hD
+    · exact Int.le_refl _
+
+theorem chainOK_steps (R off interval : Int) (hR : 0 < R) (hi : 0 < interval) :
+    ∀ (n : Nat) (s : Int), chainOK (min R interval) (s - off - R) (s - off)
+      ((stepsFrom (s + interval) interval n).map fun ts => (ts - off - R, ts - off)) := by
+  intro n
+  induction n with
+  | zero => intro s; simp [stepsFrom, chainOK]
+  | succ n ih =>
+    intro s
+    simp only [stepsFrom, List.map_cons, chainOK]
+    refine ⟨by omega, by omega, by omega, by omega, ih (s + interval)⟩
+
+/-- The engine's range-vector function loop (buffer of `selRange`, steps `start, start+interval, …`,
+    `ReduceDelta(min(selRange, interval))`): at every step the reused window is the documented window. -/
+theorem range_loop_spec (series : Series) (R off start end_ interval : Int)
+    (hs : Sorted series) (hR : 0 < R) (hi : 0 < interval) :
+    rangeLoop series R off start end_ interval
+      = (steps start end_ interval).map (fun ts => winSpec series (ts - off - R) (ts - off)) := by
+  unfold rangeLoop steps
+  cases numSteps start end_ interval with
+  | zero => rfl
+  | succ n =>
+    simp only [stepsFrom, List.map_cons]
+    have := matrix_window_inv series R (min R interval) (start - off - R) (start - off)
+      ((stepsFrom (start + interval) interval n).map fun ts => (ts - off - R, ts - off)) hs (by omega) (by omega)
+      (by omega) (by omega) (chainOK_steps R off interval hR hi n start)
+    rw [this]
+    simp [List.map_map, Function.comp_def]
+
+/-- ... i.e. step by step equal to from-scratch range selectors -/
+theorem range_loop_eq_rangeSel (series : Series) (R off start end_ interval : Int)
+    (hs : Sorted series) (hR : 0 < R) (hi : 0 < interval) :
+    rangeLoop series R off start end_ interval
+      = (steps start end_ interval).map (fun ts => rangeSel series ts R off none) := by
+  rw [range_loop_spec series R off start end_ interval hs hR hi]
+  apply List.map_congr_left
+  intro ts _
+  rw [range_spec series ts R off none hs hR]
+  simp [refTime]
+
+/-- `maxt` must advance strictly: asking for the same window twice duplicates the sample sitting on `maxt`
+    (the sought sample is appended without the `t > mintFloats` check). The engine never does this: with `@`
+    the window is fetched once (`refetch` is false after the first step). -/
+theorem repeated_window_duplicates_witness :
+    runWindows 5 (BufIter.init [⟨10, false, false, 1⟩] 5) Win.empty [(5, 10), (5, 10)]
+      = [⟨[⟨10, false, false, 1⟩], []⟩, ⟨[⟨10, false, false, 1⟩, ⟨10, false, false, 1⟩], []⟩] := by decide
+
+/-! ### offset and @ -/
+
+/-- `offset` and `@` only move the windows: a selector with modifiers is the plain selector evaluated at the
+    shifted/fixed time `t' = (@ or t) - offset`; negative offsets included. -/
+theorem offset_at_shift_windows (series : Series) (t lb R off : Int) (atT : Option Int) :
+    instantSel series t lb off atT = instantSel series (refTime t off atT) lb 0 none ∧
+    rangeSel series t R off atT = rangeSel series (refTime t off atT) R 0 none := by
+  constructor <;> simp [instantSel, rangeSel, refTime]
+
+/-- `setOffsetForAtModifier`: the offset it installs makes the evaluation at ANY evaluation time land on
+    `ts - originalOffset` (no enclosing subquery), so a step-invariant node can be evaluated once. -/
+theorem at_offset_fixes_time (evalTime ts origOff : Int) :
+    refTime evalTime (atOffset evalTime (some ts) origOff 0 none) none = refTime evalTime origOff (some ts) := by
+  simp [refTime, atOffset]; omega
+
+/-- The querier range requested by `getTimeRangesForSelector` for a plain selector is exactly the window the
+    evaluator reads: `[t' - lookback + 1, t']` for instant selectors, `[t' - range + 1, t']` for range selectors
+    (over the whole query range `qStart..qEnd`). -/
+theorem select_range_is_window (qStart qEnd lb off R : Int) (atT : Option Int) (hR : 0 < R) :
+    selectRange qStart qEnd lb none atT off 0
+      = (refTime qStart off atT - lb + 1, refTime qEnd off atT) ∧
+    selectRange qStart qEnd lb none atT off R
+      = (refTime qStart off atT - R + 1, refTime qEnd off atT) := by
+  have hR' : R ≠ 0 := by omega
+  cases atT <;> simp [selectRange, refTime, hR'] <;> omega
+
+/-- Finding C28-F1: `timestamp(m @ a offset o)` overwrites the selector offset with `enh.Ts - a`, so the lookup
+    happens at `a` instead of `a - o`, on the samples selected for `a - o`. The model follows the code
+    (`SelSuite.modelQuery`, kind `ts`); here: samples at 1005000 and 1010000, lookback 5 s, `@ 1010000 offset 4000`:
+    the documented answer is the sample of 1005000, the engine's strategy finds nothing. -/
+theorem timestamp_at_offset_ignored_witness :
+    let series : Series := [⟨1005000, false, false, 1⟩, ⟨1010000, false, false, 2⟩]
+    let vis := visible (selectRange 1010000 1010000 5000 none (some 1010000) 4000 0) series
+    instantSel series 1010000 5000 4000 (some 1010000) = some ⟨1005000, false, false, 1⟩ ∧
+    (vsSingle 5000 (Memo.init vis (5000 - 1)) 1010000).2 = none := by decide
 
 /-! ### subquery steps -/
 
